@@ -241,7 +241,9 @@ func drawDiffOpts(c *Config, o *pipeOpts) {
 	o.ws = c.Rng.Intn(2) == 0
 	o.ncl = c.Rng.Intn(4) == 0
 	if c.Rng.Intn(6) == 0 {
-		o.dto = []int{1, 1000, 100000}[c.Rng.Intn(3)]
+		// 7777 (round 5b): configured as 1 ms, then the item's Timeout field is set to 1 ns so that every diff
+		// computation really runs past its deadline (the fault "the diff timed out")
+		o.dto = []int{1, 1000, 100000, 7777, 7777}[c.Rng.Intn(5)]
 	}
 }
 
